@@ -54,3 +54,10 @@ func VC_C12_iface_h3() {
 	vIVar12 = nil
 	vHandleHistory(3, vIfaceTarget(), "C12.iface")
 }
+
+func VC_C12_iface_h4() {
+	vEnv()
+	stub.VerifResetMmap()
+	vIVar12 = nil
+	vHandleHistory(4, vIfaceTarget(), "C12.iface")
+}
